@@ -229,7 +229,7 @@ func extractPipe(w *strings.Builder) error {
 			switch x := n.(type) {
 			case *ast.CallExpr:
 				switch exprString(x.Fun) {
-				case "strings.Split", "strings.Join", "strings.HasPrefix":
+				case "strings.Split", "strings.Join", "strings.HasPrefix", "strings.ContainsAny":
 					if len(x.Args) == 2 {
 						rewriteFacts = append(rewriteFacts, exprString(x.Fun)+" "+exprString(x.Args[1]))
 					}
